@@ -1,4 +1,5 @@
 import Juniper.Model.Stream
+import Juniper.Proofs.ValueFacts
 /-!
 # What every method of `stream.go` does with the `(item, err)` pair its source handed it (C08, tie 1)
 
@@ -19,7 +20,7 @@ change of the Go source changes a generated definition and breaks the lemma of t
 every theorem of `Props/C07–C09` about that method. They are `simp` lemmas.
 -/
 namespace Juniper.Proofs.StreamDen
-open Juniper.Model.Stream Juniper.Gen.Comb
+open Juniper.Model.Stream Juniper.Gen.Comb Juniper.Proofs.ValueFacts
 universe u v w x
 variable {σ : Type u} {τ : Type w} {α β : Type v}
 
@@ -251,6 +252,21 @@ theorem chan_step_expired (st : ChanSt α) : (chan (α := α)).step st false = (
 @[simp] theorem joinOn_err (m : SM σ α) (st : JoinSt σ) (s' : σ) (rest : List σ) (e : Err) :
     joinOn m st s' rest (.err e) = (.err e, { st with remaining := s' :: rest }) := by
   simp [joinOn, SStep.code, SStep.held, ret, retE, stJoinEndGuard, stJoinErrGuard, stJoinErrRet]
+
+/-- `Join` with nothing left (`for len(s.remaining) > 0` not entered): `return zero, End` -/
+@[simp] theorem join_step_nil (m : SM σ α) (fin : List σ) (c : Bool) :
+    (join m).step ⟨[], fin⟩ c = (.end_, ⟨[], fin⟩) := by
+  simp [join]
+
+/-- `Join` with a current argument: one pull of `remaining[0]` -/
+theorem join_step_cons (m : SM σ α) (s : σ) (r fin : List σ) (c : Bool) :
+    (join m).step ⟨s :: r, fin⟩ c =
+      match m.step s c with
+      | (.skip, s') => (.skip, ⟨s' :: r, fin⟩)
+      | (x, s') => joinOn m ⟨s :: r, fin⟩ s' r x := by
+  simp only [join, stJoinLoops_eq, List.length_cons, Nat.zero_lt_succ, decide_true, if_true]
+  rcases m.step s c with ⟨x, s'⟩
+  cases x <;> rfl
 
 /-- `joinStream.Close` closes every remaining argument (range operand and loop body as in the source) -/
 @[simp] theorem joinCloseAll_eq : joinCloseAll = stJoinCloseForwards := by
